@@ -158,12 +158,16 @@ def _tracer_factory(mode, plan, crossings, die):
     return glob
 
 
-def _child(d, argv, sim, out_path):
+def _child(d, argv, sim, out_fd):
     import singlecellmultiomics.universalBamTagger.bamtagmultiome as tm
     import singlecellmultiomics.universalBamTagger.tagging as tagging
     import singlecellmultiomics.bamProcessing.bamFunctions as bf
     import pysam
     os.chdir(d)
+    if sim.get('fsize') is not None:      # real kernel fault: write(2) beyond N bytes fails with EFBIG (SIGXFSZ is ignored by CPython)
+        import resource
+        signal.signal(signal.SIGXFSZ, signal.SIG_IGN)
+        resource.setrlimit(resource.RLIMIT_FSIZE, (int(sim['fsize']), int(sim['fsize'])))
     devnull = os.open(os.devnull, os.O_WRONLY)
     os.dup2(devnull, 1)
     os.dup2(devnull, 2)
@@ -209,7 +213,7 @@ def _child(d, argv, sim, out_path):
     if sim.get('real_pool'):
         import multiprocessing
         tm.Pool = multiprocessing.get_context('fork').Pool
-    if sim.get('faults'):
+    if sim.get('faults') is not None:
         bf.pysam = _ModProxy(pysam, faults, 'pysam', wrap_writer=True)
         bf.os = _ModProxy(os, faults, 'os')
         tm.pysam = _ModProxy(pysam, faults, 'pysam')
@@ -231,12 +235,14 @@ def _child(d, argv, sim, out_path):
         res['pool_orders'] = [p.order for p in fac.pools]
         res['digest_events'] = log.digest()
         res['names_drawn'] = names.n
+        res['seam_calls'] = dict(faults.counts)
         if sim.get('trace') == 'record':
             res['crossings'] = crossings
-        tmp = out_path + '.tmp'
-        with open(tmp, 'w') as f:
-            json.dump(res, f)
-        os.rename(tmp, out_path)
+        data = json.dumps(res).encode()
+        off = 0
+        while off < len(data):
+            off += os.write(out_fd, data[off:off + 65536])
+        os.close(out_fd)
 
     def die(key, c):
         res['crashed_at'] = [key[0], key[1], c]
@@ -285,39 +291,45 @@ def _run_tiling(tm, argv, sim):
 
 
 def run_lifetime(d, argv, sim, timeout=120):
-    """fork, run, wait.  Returns the child's result dict (or {'killed': True} when the child died by _exit/kill)"""
-    out_path = os.path.join(d, 'child_result.json')
-    if os.path.exists(out_path):
-        os.remove(out_path)
+    """fork, run, wait.  The child's result comes back through a pipe (a file-size limit must not affect it)."""
+    import select
+    rfd, wfd = os.pipe()
     pid = os.fork()
     if pid == 0:
+        os.close(rfd)
         try:
-            _child(d, argv, sim, out_path)
+            _child(d, argv, sim, wfd)
         except BaseException:
             try:
-                with open(out_path + '.harness', 'w') as f:
-                    f.write(traceback.format_exc())
+                os.write(wfd, json.dumps({'harness': traceback.format_exc()[-3000:]}).encode())
             finally:
                 os._exit(99)
+    os.close(wfd)
     t0 = time.time()
-    status = None
-    while True:
-        p, st = os.waitpid(pid, os.WNOHANG)
-        if p == pid:
-            status = st
-            break
-        if time.time() - t0 > timeout:
-            os.kill(pid, signal.SIGKILL)
-            os.waitpid(pid, 0)
-            raise RuntimeError(f'tagger child exceeded {timeout}s wall clock (harness timeout, not a verdict)')
-        time.sleep(0.002)
-    if os.path.exists(out_path + '.harness'):
-        raise RuntimeError('harness failure in child: ' + open(out_path + '.harness').read()[-1500:])
+    chunks = []
+    try:
+        while True:
+            left = timeout - (time.time() - t0)
+            if left <= 0:
+                os.kill(pid, signal.SIGKILL)
+                os.waitpid(pid, 0)
+                raise RuntimeError(f'tagger child exceeded {timeout}s wall clock (harness timeout, not a verdict)')
+            r, _, _ = select.select([rfd], [], [], min(left, 1.0))
+            if r:
+                b = os.read(rfd, 1 << 16)
+                if not b:
+                    break
+                chunks.append(b)
+    finally:
+        os.close(rfd)
+    _, status = os.waitpid(pid, 0)
     code = os.WEXITSTATUS(status) if os.WIFEXITED(status) else -os.WTERMSIG(status)
-    if not os.path.exists(out_path):
+    data = b''.join(chunks)
+    if not data:
         return {'exit': code, 'no_result': True}
-    with open(out_path) as f:
-        res = json.load(f)
+    res = json.loads(data.decode())
+    if 'harness' in res:
+        raise RuntimeError('harness failure in child: ' + res['harness'])
     res['exit'] = code
     return res
 
